@@ -2,9 +2,9 @@ package main
 
 import (
 	"fmt"
-	"math/big"
 	"go/token"
 	"go/types"
+	"math/big"
 	"strings"
 
 	"golang.org/x/tools/go/ssa"
@@ -294,6 +294,89 @@ func (fe *FnEnc) unknownCall(what string, args []Val, rt types.Type) Val {
 	}
 	return fe.freshVal("uc", rt)
 }
+
+// closureArgEffects over-approximates what a callee does by invoking a closure it was handed.
+func (fe *FnEnc) closureArgEffects(c *Closure, callee string) {
+	fn, _ := c.Fn.(*ssa.Function)
+	if fn == nil || fn.Blocks == nil {
+		fe.havocAll("closure argument of " + callee)
+		return
+	}
+	written := map[int]bool{}
+	unknown := ""
+	fvIndex := func(v ssa.Value) int {
+		for i, f := range fn.FreeVars {
+			if v == f {
+				return i
+			}
+		}
+		return -1
+	}
+	for _, b := range fn.Blocks {
+		for _, ins := range b.Instrs {
+			switch x := ins.(type) {
+			case *ssa.Store:
+				root := x.Addr
+				for {
+					switch a := root.(type) {
+					case *ssa.IndexAddr:
+						root = a.X
+						continue
+					case *ssa.FieldAddr:
+						root = a.X
+						continue
+					}
+					break
+				}
+				if i := fvIndex(root); i >= 0 {
+					written[i] = true
+				} else if _, local := root.(*ssa.Alloc); !local {
+					unknown = "a store through a pointer"
+				}
+			case *ssa.MapUpdate, *ssa.Send, *ssa.Go, *ssa.Defer, *ssa.MakeClosure:
+				unknown = fmt.Sprintf("%T", x)
+			case ssa.CallInstruction:
+				cc := x.Common()
+				if cc.IsInvoke() {
+					if ct := fe.g.db.Contracts[fe.ifaceMethodKey(cc)]; ct == nil || len(ct.Assigns) > 0 {
+						unknown = "interface call " + cc.Method.Name()
+					}
+					continue
+				}
+				switch f := cc.Value.(type) {
+				case *ssa.Builtin:
+					if f.Name() == "copy" || f.Name() == "delete" {
+						unknown = "builtin " + f.Name()
+					}
+				case *ssa.Function:
+					key := fnKey(f)
+					if ct := fe.g.db.Contracts[key]; ct != nil {
+						if len(ct.Assigns) > 0 {
+							unknown = "call of " + key
+						}
+					} else if _, ok := pureExterns[key]; !ok {
+						unknown = "call of " + key
+					}
+				default:
+					unknown = "dynamic call"
+				}
+			}
+		}
+	}
+	if unknown != "" {
+		fe.s.note("closure passed to %s in %s contains %s: all heaps havocked", callee, fe.fnName(), unknown)
+		fe.havocAll("closure argument of " + callee + " (" + unknown + ")")
+	}
+	fe.s.note("closure passed to %s in %s: captured variables it assigns are havocked after the call", callee, fe.fnName())
+	for i, b := range c.Bindings {
+		if written[i] || unknown != "" {
+			fe.havocReachable(b)
+		}
+	}
+}
+
+// calls without side effects that closures may contain
+var pureExterns = map[string]bool{"fmt.Errorf": true, "errors.New": true, "fmt.Sprintf": true}
 
 func (fe *FnEnc) havocReachable(a Val) {
 	s := fe.s
@@ -703,8 +786,17 @@ func (fe *FnEnc) useContractFn(ct *Contract, callee *ssa.Function, args []Val, r
 	for _, as := range ct.Assigns {
 		fe.havocLvalue(ev, as)
 	}
+	// closures handed to the callee may be invoked any number of times: the captured variables they
+	// assign are havocked; a closure body with effects this analysis cannot bound havocs everything
+	cloArg := false
+	for _, a := range args {
+		if a.Clo != nil {
+			cloArg = true
+			fe.closureArgEffects(a.Clo, ct.Name)
+		}
+	}
 	// allocation watermarks may grow (unless the callee is declared allocation-free)
-	noalloc := ct.Opts["noalloc"] != ""
+	noalloc := ct.Opts["noalloc"] != "" && !cloArg
 	var may map[string]bool
 	if callee != nil && !ct.Trusted {
 		may = fe.g.mayAlloc(callee)
